@@ -192,6 +192,19 @@ pub fn run_viter<E: EndianParse>(
             o.write_str("]")?;
             continue;
         }
+        if q[0].w() == "walk" {
+            let was = crate::alloc_count::suspend();
+            let acts: Vec<usize> = q[1..].iter().map(|t| t.us()).collect();
+            crate::alloc_count::restore(was);
+            match kind {
+                "verdef" => walk_iter(o, VerDefIterator::new(e, c, count as u64, off, d), &acts, &|o, x: &(VerDef, VerDefAuxIterator<E>)| x.0.show(o))?,
+                "verneed" => walk_iter(o, VerNeedIterator::new(e, c, count as u64, off, d), &acts, &|o, x: &(VerNeed, VerNeedAuxIterator<E>)| x.0.show(o))?,
+                "verdaux" => walk_iter(o, VerDefAuxIterator::new(e, c, count as u16, off, d), &acts, &|o, x: &VerDefAux| x.show(o))?,
+                "vernaux" => walk_iter(o, VerNeedAuxIterator::new(e, c, count as u16, off, d), &acts, &|o, x: &VerNeedAux| x.show(o))?,
+                _ => return bad(),
+            }
+            continue;
+        }
         let all = match (q[0].w(), q.len()) {
             ("all", 1) => None,
             ("nexts", 2) => Some(q[1].us()),
